@@ -5,6 +5,7 @@ import (
 	"sort"
 	"strings"
 	"sync"
+	"time"
 
 	"github.com/fluffle/goirc/client"
 	"github.com/fluffle/goirc/state"
@@ -104,7 +105,11 @@ func c05Lines(tail []string) []string {
 	return ls
 }
 
-func c05Scenario(tail []string) *explore.Scenario {
+func c05Scenario(tail []string) *explore.Scenario { return c05ScenarioSlow(tail, 0) }
+
+// c05ScenarioSlow: with slow > 0 every foreground handler stays in its handler for that long (virtual time, far
+// longer than Config.Timeout) and looks at the tracker again before it returns.
+func c05ScenarioSlow(tail []string, slow time.Duration) *explore.Scenario {
 	lines := c05Lines(tail)
 	idx := map[string]int{}
 	for i, l := range lines {
@@ -114,7 +119,11 @@ func c05Scenario(tail []string) *explore.Scenario {
 		Family: "tracking-order",
 		Name:   "tracking-order/" + strings.Join(tail, "+"),
 		Params: map[string]interface{}{"tail": strings.Join(tail, "+"), "lines": len(lines)},
-		Opt:    vx.Options{MaxSteps: 60000},
+		Opt:    vx.Options{MaxSteps: 60000, Horizon: 24 * time.Hour},
+	}
+	if slow > 0 {
+		sc.Name += fmt.Sprintf("/slow=%v", slow)
+		sc.Params["slow"] = slow.String()
 	}
 	mk := func(pilot bool) func(env *vx.Env) {
 		return func(env *vx.Env) {
@@ -128,6 +137,11 @@ func c05Scenario(tail []string) *explore.Scenario {
 					}
 					v := trackerVector(conn.StateTracker())
 					vx.Observe("ev", fmt.Sprintf("%s %d %s", kind, i, strings.Join(v, " ;; ")))
+					if slow > 0 && kind == "fg" {
+						vx.Sleep(slow)
+						v := trackerVector(conn.StateTracker())
+						vx.Observe("ev", fmt.Sprintf("fg-late %d %s", i, strings.Join(v, " ;; ")))
+					}
 				}
 			}
 			if !pilot {
@@ -150,6 +164,9 @@ func c05Scenario(tail []string) *explore.Scenario {
 				}
 			} else {
 				vc.SendLines(lines...)
+				if slow > 0 {
+					vx.Sleep(time.Duration(len(lines)+2) * slow)
+				}
 				vx.Quiesce()
 			}
 			vc.EOF()
@@ -181,14 +198,19 @@ func c05Scenario(tail []string) *explore.Scenario {
 		}
 		seenFG := map[int]int{}
 		seenBG := map[int]int{}
+		seenLate := map[int]int{}
 		for _, r := range o.Log("ev") {
 			sp := strings.SplitN(r, " ", 3)
 			var k int
 			fmt.Sscan(sp[1], &k)
 			v := strings.Split(sp[2], " ;; ")
 			switch sp[0] {
-			case "fg":
-				seenFG[k]++
+			case "fg", "fg-late":
+				if sp[0] == "fg" {
+					seenFG[k]++
+				} else {
+					seenLate[k]++
+				}
 				for q := range v {
 					if v[q] != expected[k][q] {
 						which := "does not yet reflect line"
@@ -236,6 +258,9 @@ func c05Scenario(tail []string) *explore.Scenario {
 			}
 		}
 		for k := range lines {
+			if slow > 0 && seenLate[k] != 1 {
+				fs = append(fs, explore.Finding{Oracle: "delivery-count", Msg: fmt.Sprintf("the slow foreground handler of line %d finished %d times, expected 1", k, seenLate[k])})
+			}
 			if seenFG[k] != 1 || seenBG[k] != 1 {
 				fs = append(fs, explore.Finding{Oracle: "delivery-count", Msg: fmt.Sprintf("line %d delivered to %d foreground / %d background handlers, expected 1/1", k, seenFG[k], seenBG[k])})
 			}
@@ -248,7 +273,7 @@ func c05Scenario(tail []string) *explore.Scenario {
 func init() {
 	Register(&Prop{
 		ID:   "C05",
-		Rule: "tracked sessions = own JOIN + NAMES followed by 1-3 state-changing lines from {other JOIN, NICK (other, own), MODE +o, MODE +nk, TOPIC, PART, KICK of the client, QUIT, WHO reply, second own JOIN}; a foreground and a background user handler on every verb record a vector of single tracker queries over the universe; every execution within the deviation budgets; expected vectors come from a sequential pilot run of the same lines with quiescence after each; distinct = distinct canonical observation per session",
+		Rule: "tracked sessions = own JOIN + NAMES followed by 1-3 state-changing lines from {other JOIN, NICK (other, own), MODE +o, MODE +nk, TOPIC, PART, KICK of the client, QUIT, WHO reply, second own JOIN}; a foreground and a background user handler on every verb record a vector (four sessions also with foreground handlers that take five virtual minutes and look again before returning) of single tracker queries over the universe; every execution within the deviation budgets; expected vectors come from a sequential pilot run of the same lines with quiescence after each; distinct = distinct canonical observation per session",
 		Assumptions: []string{
 			"interleavings at synchronisation/channel/socket granularity (DESIGN.md 3.8)",
 			"each recorded vector component is one atomic tracker call; background handlers are judged per component (some state at or after their line)",
@@ -291,6 +316,10 @@ func init() {
 					spec.CrossChk = &explore.Budget{K: 1}
 				}
 				jobs = append(jobs, ExploreJob("C05", spec, 10*len(t)))
+			}
+			// handlers that stay in the handler for five virtual minutes (far longer than any timeout the library knows)
+			for _, t := range [][]string{{"joinb"}, {"nickme", "opme"}, {"topic", "parta"}, {"joinb", "kickme"}} {
+				jobs = append(jobs, ExploreJob("C05", ExploreSpec{Sc: c05ScenarioSlow(t, 5*time.Minute), Variants: []int{1, 2, 3}, Budgets: []explore.Budget{{0, 0}, {1, 0}}, Cache: true}, 20))
 			}
 			return jobs
 		},
